@@ -11,6 +11,7 @@ import ClairModel.Proofs.CvssSweep31
 import ClairModel.Proofs.CvssV2
 import ClairModel.Proofs.CvssRange
 import ClairModel.Proofs.CvssTables
+import ClairModel.Proofs.CvssPrint
 
 namespace ClairModel.Props.C18
 open ClairModel ClairModel.Cvss ClairModel.CvssSpec ClairModel.Gen.Cvss
@@ -169,5 +170,25 @@ theorem v4_zero_of_no_impact_partial (v : Vec) (h : v4EffectiveNoImpact v = true
     AV:L/AC:H/Au:M/C:P/I:N/A:N/CDP:ND/TD:ND/CR:L/IR:ND/AR:ND scores −0.2 -/
 theorem v2_environmental_score_negative_example : (parse2 v2NegativeWitness).bind score2 = some (-2) :=
   v2_negative
+
+/-! ### parsing and printing -/
+
+/-- `ParseV3` returns exactly the valid vectors: 22 metric slots, minor 0 or
+    1, every present metric holds a value of its grammar class, all eight base
+    metrics present (for all strings, by induction over the metric loop) -/
+theorem parse_v3_returns_exactly_valid (v : Vec) : (∃ s, parse3 s = some v) ↔ Valid3 v :=
+  ⟨fun ⟨_, h⟩ => parse3_sound h, fun h => ⟨print3 v, parse3_print3 v h⟩⟩
+
+/-- print–parse, v3: the text `V3.String` produces for a valid vector parses
+    back to the same vector (this is the statement the duplicated RC group of
+    the unfixed code violated) -/
+theorem print_parse_v3 (v : Vec) (hv : Valid3 v) : parse3 (print3 v) = some v :=
+  parse3_print3 v hv
+
+/-- hence printing is canonical: whatever order the metrics of an accepted v3
+    string came in, its printed form is a fixed point of parse-then-print -/
+theorem print_canonical_v3 {s : Bytes} {v : Vec} (h : parse3 s = some v) :
+    (parse3 (print3 v)).map print3 = some (print3 v) := by
+  rw [parse3_print3_parse3 h]; rfl
 
 end ClairModel.Props.C18
